@@ -259,6 +259,19 @@ theorem callBack_eq (t : Table) (dotsFor : Nat → Nat) (a : Args) (r : Result) 
       · cases h
       · cases h; rfl
 
+theorem callBack_eq_hist (t : Table) (dotsFor : Nat → Nat) (a : Args) (r : Result) (hs : List (PassIn × PassOut))
+    (h : Engine.callBack t dotsFor a = .ok (r, hs)) :
+    hs = (backRun (Engine.tableInfo t) dotsFor (Engine.engineForBack t) a).hist := by
+  unfold Engine.callBack at h
+  split at h
+  · cases h
+  · simp only [] at h
+    split at h
+    · cases h
+    · split at h
+      · cases h
+      · cases h; rfl
+
 /-- **whole_call_back_lengths**: every result the backward whole-call model prints has its lengths within what the
     caller passed -/
 theorem whole_call_back_lengths (t : Table) (dotsFor : Nat → Nat) (a : Args) (r : Result) (hs : List (PassIn × PassOut))
